@@ -52,7 +52,7 @@ func (c13) Runs(tier string) int {
 }
 func (c13) New() interface{} { return &c13Case{} }
 func (c13) Rule() string {
-	return "three parts, drawn per run. bam-writer: BAM files produced by the real bam.Writer with records sized to end exactly on / one byte before a BGZF block end and records larger than a block; bam-split: the independent BAM encoder's stream cut into members of drawn sizes (member ends inside, at and next to record ends, empty members). Pass 1 reads sequentially noting LastChunk per record; pass 2 replays drawn chunk lists (Begin of record i .. End of record j, any order, repeats) through SetChunk or bam.NewIterator with rd in {0,1,2,4} and must yield exactly records i..j per chunk. bytes: index.ChunkReader over C02 files with ordered non-overlapping non-empty chunks with arbitrary boundaries in both representations of a member end and drawn read-buffer sizes must return exactly the flat bytes of each chunk, concatenated, then io.EOF. non-trivial: >=1 chunk begins or ends within 1 record/byte of a member boundary and rd>1; distinct = (case, schedule signature)"
+	return "three parts, drawn per run. bam-writer: BAM files produced by the real bam.Writer with records sized to end exactly on / one byte before a BGZF block end and records larger than a block; bam-split: the independent BAM encoder's stream cut into members of drawn sizes (member ends inside, at and next to record ends, empty members). Pass 1 reads sequentially noting LastChunk per record; pass 2 replays drawn chunk lists (Begin of record i .. End of record j, any order, repeats; in a third of the chunks an End at the end of a member is respelled as (next member, 0)) through SetChunk or bam.NewIterator with rd in {0,1,2,4} and must yield exactly records i..j per chunk. bytes: index.ChunkReader over C02 files with ordered non-overlapping non-empty chunks with arbitrary boundaries in both representations of a member end and drawn read-buffer sizes must return exactly the flat bytes of each chunk, concatenated, then io.EOF. non-trivial: >=1 chunk begins or ends within 1 record/byte of a member boundary and rd>1; distinct = (case, schedule signature)"
 }
 
 // recOfSize returns a record whose BAM encoding is exactly total bytes.
@@ -159,7 +159,11 @@ func (c13) gen0(t *Tape, tier string, run int) *c13Case {
 	for i, n := 0, 1+t.Draw("work", 5); i < n; i++ {
 		a := t.Draw("work", nrec)
 		b := a + t.Draw("work", minInt(nrec-a, 4))
-		c.Chunks = append(c.Chunks, chunkSpec{I: a, J: b})
+		// EndAtEnd doubles as "keep the End as reported" for record chunks:
+		// when false and the End lies at the end of a member, it is respelled
+		// as (next member, 0) - the same position, and the form index files
+		// written by other tools use
+		c.Chunks = append(c.Chunks, chunkSpec{I: a, J: b, EndAtEnd: !t.Chance("work", 1, 3)})
 	}
 	return c
 }
@@ -266,7 +270,14 @@ func (p c13) Exec(x *Exec, ci interface{}) *Verdict {
 	// pass 2: replay chunk lists
 	var list []bgzf.Chunk
 	for _, cs := range c.Chunks {
-		list = append(list, bgzf.Chunk{Begin: chunks[cs.I].Begin, End: chunks[cs.J].End})
+		ch := bgzf.Chunk{Begin: chunks[cs.I].Begin, End: chunks[cs.J].End}
+		if !cs.EndAtEnd {
+			if k := flat.MemberAt(ch.End.File); k >= 0 && k+1 < len(flat.Members) && int(ch.End.Block) == len(flat.Members[k].Payload) {
+				ch.End = bgzf.Offset{File: flat.Members[k+1].Off}
+				x.Probe("record_chunk_end_respelled")
+			}
+		}
+		list = append(list, ch)
 	}
 	near := false
 	for _, ch := range list {
